@@ -545,6 +545,8 @@ type Contract struct {
 	Trusted   bool                 // contract is assumed, body not verified (library or out-of-subset)
 	Loops     map[int]*LoopSpec    // by loop ordinal (1-based, source order, all loop kinds)
 	Inspects  map[string]*LoopSpec // higher-order call schemas by "<callee>#<n>"
+	NilRecv   bool                 // the method may be called on a nil receiver
+	Impure    bool                 // library: results are not a function of the arguments
 	Nullable  bool                 // library: result may be nil
 	NonNil    bool                 // library: result is never nil
 	Params    []SBind              // library/spec functions: parameter names and types
@@ -582,12 +584,13 @@ type SpecFile struct {
 	Funcs     []*SpecFunc
 	Axioms    []*AxiomSpec
 	Nullable  map[string]bool // library: nullable external fields "pkg.Type.Field"
+	GhostFields map[string]string // "pkg.Type.$name" -> type
 }
 
 var clauseKeywords = map[string]bool{
 	"func": true, "requires": true, "ensures": true, "assigns": true, "fresh": true, "pure": true,
 	"trusted": true, "loop": true, "at": true, "ghost": true, "axiom": true, "lemma": true, "props": true,
-	"nullable": true, "nonnil": true, "let": true, "nullablefield": true,
+	"nullable": true, "nonnil": true, "let": true, "nullablefield": true, "impure": true, "ghostfield": true, "nilrecv": true,
 }
 
 // parseSpecLines parses the `//@` lines of a contract file. lines are (text, pos) with the `//@` stripped.
@@ -716,6 +719,20 @@ func parseSpecLines(pkg string, lines []string, poss []string) (*SpecFile, error
 			cur.Nullable = true
 		case "nonnil":
 			cur.NonNil = true
+		case "impure":
+			cur.Impure = true
+		case "nilrecv":
+			cur.NilRecv = true
+		case "ghostfield":
+			// ghostfield pkg.Type.$name sort
+			f := strings.Fields(rest)
+			if len(f) != 2 {
+				return nil, perr(fmt.Errorf("ghostfield needs a qualified name and a type"))
+			}
+			if sf.GhostFields == nil {
+				sf.GhostFields = map[string]string{}
+			}
+			sf.GhostFields[f[0]] = f[1]
 		case "nullablefield":
 			for _, f := range strings.Fields(strings.ReplaceAll(rest, ",", " ")) {
 				sf.Nullable[f] = true
